@@ -12,7 +12,7 @@ from harness import core, backends, recorder
 RULE = ("one fresh interpreter per configuration = (PYSNARK_BACKEND unset / '' / each of the 8 registry names / unknown "
         "names incl. wrong case, trailing space, prefix of a name) x (0-2 backend modules imported before the runtime, in "
         "either order) x (libsnark, qaptools, flatbuffers each loadable or not, toggled through stand-ins on "
-        "PYTHONPATH / QAPTOOLS_BIN). Oracle: reference model of the documented three stages - a pre-imported backend is "
+        "PYTHONPATH / QAPTOOLS_BIN) x (plain interpreter / interactive session with get_ipython defined). Oracle: reference model of the documented three stages - a pre-imported backend is "
         "the one used; else a known name selects exactly that module or the import fails loudly (non-zero exit, traceback "
         "naming the cause); an unknown name is reported on stdout before any fallback; else the first loadable backend in "
         "registry order. In every successful case backend_name, backend.__name__, get_modulus() (and the Groth16 switch "
@@ -40,6 +40,9 @@ ENVS = [None, ""] + NAMES + ["bogus", "SNARKJS", "snarkjs ", "zkif", "libsnark2"
 IFACE = ["privval", "pubval", "zero", "one", "fieldinverse", "get_modulus", "add_constraint", "prove"]
 
 CHILD = '''import sys, json, importlib
+if %r:
+    import builtins
+    builtins.get_ipython = lambda: None       # what an IPython / Jupyter session provides
 pre = %r
 for m in pre:
     importlib.import_module(m)
@@ -73,6 +76,10 @@ def model(cfg):
             return ("select", [env], False)
         return ("fail",)
     first = [n for n in NAMES if loadable(n, load)][0]
+    if cfg.get("interactive"):
+        # inside IPython the code falls back to the dummy backend; the property only fixes what happens when a known
+        # backend was named or pre-imported, so either fallback is accepted here
+        return ("select", sorted({first, "nobackend"}), env is not None)
     return ("select", [first], env is not None)
 
 
@@ -92,7 +99,7 @@ def run_case(cfg):
     import tempfile, shutil
     tmp = tempfile.mkdtemp(prefix="verif-c19-")
     try:
-        r = subprocess.run([sys.executable, "-c", CHILD % ([MOD[n] for n in pre], IFACE)], cwd=tmp, env=envv,
+        r = subprocess.run([sys.executable, "-c", CHILD % (bool(cfg.get("interactive")), [MOD[n] for n in pre], IFACE)], cwd=tmp, env=envv,
                            capture_output=True, text=True, timeout=120, start_new_session=True)
     finally:
         shutil.rmtree(tmp, ignore_errors=True)
@@ -102,7 +109,8 @@ def run_case(cfg):
     for ln in r.stdout.splitlines():
         if ln.startswith("RESULT "):
             res = json.loads(ln[7:])
-    desc = "PYSNARK_BACKEND=%r, pre-imported %r, loadable %r" % (env, pre, sorted(k for k, v in load.items() if v))
+    desc = "PYSNARK_BACKEND=%r, pre-imported %r, loadable %r%s" % (env, pre, sorted(k for k, v in load.items() if v),
+                                                                  ", interactive session (get_ipython defined)" if cfg.get("interactive") else "")
     if exp[0] == "fail":
         if res is not None or r.returncode == 0:
             return "%s: the named backend cannot be loaded, yet the run went on with backend %r" % (desc, res and res["name"]), info
@@ -139,7 +147,7 @@ def run_case(cfg):
 
 
 def nontrivial(cfg, info):
-    if cfg["pre"]:
+    if cfg["pre"] or (cfg.get("interactive") and cfg["env"] in NAMES):
         return True
     sel = info.get("selected")
     if sel is None:
@@ -159,6 +167,8 @@ def all_configs():
                     continue      # two conflicting field switches of one base module: not a defined configuration
                 if all(loadable(n, load) for n in pre):
                     out.append({"env": env, "pre": pre, "load": load})
+                    if len(pre) <= 1:
+                        out.append({"env": env, "pre": pre, "load": load, "interactive": True})
     return out
 
 
@@ -222,7 +232,7 @@ def run(ctx):
     from harness.checks.c05 import replay_known
     ctx.rule = RULE
     ctx.assumptions = ["loadability is toggled through stand-ins (import-only libsnark stub, failing qaptools stubs, flatbuffers stand-in)",
-                       "the IPython branch (get_ipython) is not exercised", "registry order is the documented auto-detection order"]
+                       "an interactive session is modelled by defining builtins.get_ipython before the runtime is imported (0-1 pre-imported modules)", "registry order is the documented auto-detection order"]
     # the whole configuration space is small enough to enumerate in both tiers (about 20 s on 16 cores)
     cfgs = all_configs()
     total = core.run_shards("harness.checks.c19", "shard", [dict(cfgs=cfgs[i::16]) for i in range(16)])
